@@ -79,10 +79,10 @@ class Gen:
         if not self.cfg.gtxn or c < 0.6:
             return [f"txn {field}"], "self"
         if c < 0.75:
-            i = self.r.randrange(0, 4)
+            i = self.r.choice([0, 1, 2, 3, 0, 1, 14, 15])
             return [f"gtxn {i} {field}"], ("abs", i)
         if c < 0.85:
-            i = self.r.randrange(0, 4)
+            i = self.r.choice([0, 1, 2, 3, 15])
             return self.push_int(i) + [f"gtxns {field}"], ("abs", i)
         k = self.r.choice([1, 2, -1, -2]) if self.chance(0.9) else 0
         if k >= 0:
@@ -135,7 +135,7 @@ class Gen:
                 return rd
             if c < 0.5:
                 return rd + ["!"]
-            return self.cmp(rd, self.push_int(0), self.r.choice(["==", "!="]))
+            return self.cmp(rd, self.push_int(self.r.choice([0, 0, 0, 7, 1234])), self.r.choice(["==", "!="]))
         # address
         f = self.r.choice(ADDR_FIELDS)
         rd, _ = self.read_txn_field(f)
@@ -278,6 +278,8 @@ class Gen:
             return ["err"] if c < 0.5 else self.cond() + ["assert"]
         if in_sub:
             self.tags.add("innerApprove")
+        if c < 0.05 and self.intcblock is not None and 1 in self.intcblock:
+            return [f"intc {self.intcblock.index(1)}", "return"]
         if c < 0.35: return ["int 1", "return"]
         if c < 0.5: return ["int 0", "return"]
         if c < 0.75: return self.cond() + ["return"]
